@@ -44,56 +44,66 @@ structure Store where
   deriving Repr, Inhabited
 
 /-- `get_or_insert` + `insert_canonical`: parse on first load, gather symbols, store -/
-def Store.load (fs : FsModel) (st : Store) (id : Nat) : Except Stage (Store × File) :=
+def File.constsInRange (f : File) : Bool :=
+  f.nodes.all fun
+    | .const c => c.rangeOk
+    | .iface i => i.members.all (fun | .const c => c.rangeOk | _ => true)
+    | _ => true
+
+def Store.load (fs : FsModel) (ub : Bool) (st : Store) (id : Nat) : Except Stage (Store × File) :=
   match fs.file id with
   | none => .error .incl
   | some f =>
     if st.loaded.contains id then .ok (st, f)
     else if !f.parseOk then .error .parse
+    -- pst.rs:302-308: without --allow-undefined-behavior an out-of-range literal is fatal
+    else if !ub && !f.constsInRange then .error .parse
     else
       match gatherSymbols id f.nodes st.symbols with
       | .error e => .error e
       | .ok sy => .ok ({ st with loaded := st.loaded ++ [id], symbols := sy }, f)
 
-mutual
-  /-- `walk_all` restricted to what `IDLStore` overrides: `visit_root_ident`, `visit_include` -/
-  def walkFile (fs : FsModel) (sp : List Nat) : Nat → File → Store → Except Stage Store
-    | fuel, f, st => walkNodes fs sp fuel f.nodes { st with current := some f.id }
-  def walkNodes (fs : FsModel) (sp : List Nat) : Nat → List Node → Store → Except Stage Store
-    | _, [], st => .ok st
-    | fuel, .incl path hasDir :: ns, st =>
-      match visitInclude fs sp fuel path hasDir st with
-      | .error e => .error e
-      | .ok st' => walkNodes fs sp fuel ns st'
-    | fuel, _ :: ns, st => walkNodes fs sp fuel ns st
-  /-- `visit_include` (idl_store.rs:47-63) -/
-  def visitInclude (fs : FsModel) (sp : List Nat) : Nat → Nat → Bool → Store → Except Stage Store
-    | 0, _, _, _ => .error .fuel
-    | fuel+1, path, hasDir, st =>
-      match st.current with
-      | none => .error .incl                    -- `self.current.take().unwrap()` after a cycle
-      | some cur =>
-        match fs.resolve sp cur path hasDir with
-        | none => .error .incl
-        | some target =>
-          let g := st.graph.addEdge cur target
-          let st := { st with current := none, graph := g, edges := st.edges ++ [(cur, path, target)] }
-          if g.hasCycle then .ok { st with cycle := true }
-          else
-            match st.load fs target with
+/-- `walk_all` restricted to what `IDLStore` overrides (`visit_include`), with the include
+    visitor abstracted (keeps the recursion on the fuel structural) -/
+def walkNodesWith (vi : Nat → Bool → Store → Except Stage Store) : List Node → Store → Except Stage Store
+  | [], st => .ok st
+  | .incl path hasDir :: ns, st =>
+    match vi path hasDir st with
+    | .error e => .error e
+    | .ok st' => walkNodesWith vi ns st'
+  | _ :: ns, st => walkNodesWith vi ns st
+
+/-- `visit_include` (idl_store.rs:47-63); the recursive `walk_all(self, &inc_ast)` first sets
+    `current` (`visit_root_ident`) and then visits the included file's own includes -/
+def visitInclude (fs : FsModel) (ub : Bool) (sp : List Nat) : Nat → Nat → Bool → Store → Except Stage Store
+  | 0, _, _, _ => .error .fuel
+  | fuel+1, path, hasDir, st =>
+    match st.current with
+    | none => .error .incl                    -- `self.current.take().unwrap()` after a cycle
+    | some cur =>
+      match fs.resolve sp cur path hasDir with
+      | none => .error .incl
+      | some target =>
+        let g := st.graph.addEdge cur target
+        let st := { st with current := none, graph := g, edges := st.edges ++ [(cur, path, target)] }
+        if g.hasCycle then .ok { st with cycle := true }
+        else
+          match st.load fs ub target with
+          | .error e => .error e
+          | .ok (st1, f) =>
+            match walkNodesWith (visitInclude fs ub sp fuel) f.nodes { st1 with current := some f.id } with
             | .error e => .error e
-            | .ok (st1, f) =>
-              match walkFile fs sp fuel f st1 with
-              | .error e => .error e
-              | .ok st2 => .ok { st2 with current := some cur }
-end
+            | .ok st2 => .ok { st2 with current := some cur }
+
+def walkFile (fs : FsModel) (ub : Bool) (sp : List Nat) (fuel : Nat) (f : File) (st : Store) : Except Stage Store :=
+  walkNodesWith (visitInclude fs ub sp fuel) f.nodes { st with current := some f.id }
 
 /-- main.rs:131-133 + `check_includes`: load the main file, walk it, fail on a cycle -/
-def loadAll (fs : FsModel) (sp : List Nat) (main : Nat) : Except Stage (Store × File) :=
-  match ({} : Store).load fs main with
+def loadAll (fs : FsModel) (ub : Bool) (sp : List Nat) (main : Nat) : Except Stage (Store × File) :=
+  match ({} : Store).load fs ub main with
   | .error e => .error e
   | .ok (st, f) =>
-    match walkFile fs sp (fs.files.length + 2) f st with
+    match walkFile fs ub sp (fs.files.length + 2) f st with
     | .error e => .error e
     | .ok st' => if st'.cycle then .error .incl else .ok (st', f)
 
